@@ -55,6 +55,14 @@ def cases(rng, which, count):
                 er = [("s%d" % i, "".join(c[i] for c in cols)) for i in range(n)]
                 fl = [f for f in ("-a", "-g") if rng.random() < 0.5]
                 yield Case("cli_lib", [esc(fasta(er)), "compute", "entropy"] + fl, True, "cli-entropy")
+            elif w == "stats":
+                er = [(nm, "".join(rng.choice("ACGTacN-") for _ in range(L))) for nm, _ in rows]
+                se = esc(fasta(er))
+                fl = [f for f in ("--ignore-gaps", "--ignore-n") if rng.random() < 0.4]
+                yield Case("cli_lib", [se, "stats", "maxchar"] + fl, True, "cli-stats-maxchar")
+                for sub in ("nseq", "length", "taxa", "gaps"):
+                    yield Case("cli_lib", [se, "stats", sub], True, "cli-stats-" + sub)
+                yield Case("cli_lib", [se, "diff"], True, "cli-diff")
             elif w == "sites":
                 ss = [str(rng.randint(-1, L)) for _ in range(rng.randint(1, 4))]
                 yield Case("cli_lib", [st, "subsites"] + ss, True, "cli-subsites")
